@@ -71,6 +71,10 @@ def evaluate_shared(case):
     return None
 
 
+def _sanitise(case):
+    return case
+
+
 def evaluate_any(case):
     return evaluate_shared(case) if "requests" in case else evaluate(case)
 
